@@ -310,23 +310,26 @@ val scan :
   (('a1, 'a2) term -> bool) -> ('a1, 'a2) term list -> ('a1, 'a2) term
   list * ('a1, 'a2) term list
 
-val set_find :
-  ('a1 -> 'a1 -> bool) -> 'a1 -> ('a1, 'a2) term list -> ('a1, 'a2) term
-  option
+type ('p, 'c) ins_res =
+| Inserted of ('p, 'c) term list
+| Blocked of ('p, 'c) term list * ('p, 'c) term * ('p, 'c) term list
 
-val set_insert :
+val set_insert_res :
   ('a1 -> 'a1 -> bool) -> ('a1, 'a2) term -> ('a1, 'a2) term list -> ('a1,
-  'a2) term list * bool
+  'a2) ins_res
 
-val set_erase :
-  ('a1 -> 'a1 -> bool) -> 'a1 -> ('a1, 'a2) term list -> ('a1, 'a2) term
-  list * ('a1, 'a2) term list
+type final =
+| FinInserted
+| FinNegligible
+| FinFuel
 
 type ('p, 'c) event =
-| EvNew
-| EvRefused
-| EvMerged of ('p, 'c) term list * ('p, 'c) term * bool
-| EvNegligible of ('p, 'c) term list * ('p, 'c) term
+| EvChain of (('p, 'c) term * ('p, 'c) term) list * final
+
+val add_term_loop :
+  ('a1 -> 'a1 -> bool) -> ('a2 -> int -> bool) -> ('a2 -> 'a2 -> 'a2) -> int
+  -> ('a1, 'a2) term -> ('a1, 'a2) term list -> ('a1, 'a2) term
+  list * ((('a1, 'a2) term * ('a1, 'a2) term) list * final)
 
 val add_term :
   ('a1 -> 'a1 -> bool) -> ('a2 -> int -> bool) -> ('a2 -> 'a2 -> 'a2) ->
